@@ -47,7 +47,7 @@ ASSUMPTIONS = [
 ]
 TRUSTED_BASE = ['vf/monitors/c35.py reference evaluator (scoping rules)', 'vf/hail_fake_backend.py', 'vf/shims (decorator, parsimonious, orjson)']
 SHARDS = {'quick': 4, 'thorough': 16}
-TIMEOUT = {'quick': 600, 'thorough': 3000}
+TIMEOUT = {'quick': 900, 'thorough': 3000}
 FLOORS = {
     'judged': 300, 'cse_bindings_total': 500, 'agg_lets': 20, 'cases_with_stream_agg': 50, 'node_kinds': 30, 'table_cases_judged': 20,
     # phase aggctx (about half of the minimum over quick seeds 0..4): aggregation objects shared across / inside nodes that redefine
